@@ -48,6 +48,7 @@ type EvB struct {
 	FillEq    bool `json:"fillEq"`    // a consumed deposit was exactly the remaining debt of an auction that closed
 	FillOver  bool `json:"fillOver"`  // a deposit larger than the remaining debt was partly consumed
 	FillUnder bool `json:"fillUnder"` // a deposit smaller than the remaining debt was consumed entirely
+	Unchecked bool `json:"unchecked"` // a withdraw message asking for more than the signer's deposit or for another denomination
 }
 
 func eventsB(pre, post StB) EvB {
@@ -158,6 +159,13 @@ func (r *runnerB) add(w *World, parent int, a string, args, res map[string]inter
 		st.Root = r.preOf(parent).Root
 		if a == "Block" {
 			st.Ev = eventsB(r.preOf(parent), st)
+		}
+		if a == "Withdraw" {
+			for _, d := range r.preOf(parent).Dep {
+				if d.U == argS(args, "u") && d.Prem == argI(args, "prem") && (argI(args, "amt") > d.Amt || argS(args, "denom") != d.Denom) {
+					st.Ev.Unchecked = true
+				}
+			}
 		}
 	}
 	if res == nil {
